@@ -559,7 +559,7 @@ def run(ctx):
     r_operand_access(ctx)
     translate.r_evalshape(ctx)    # every term of a combination is evaluated (through its accessor), whatever its coefficient: an unsolved leaf always raises
     r_none(ctx)
-    solveprog.r_solve_program(ctx, {"none"})
+    solveprog.r_solve_program(ctx, {"none", "options"})
     no = r_options(ctx)
     wrappers.r_constraint_kinds(ctx)
     ctx.floor("except clauses", ne, 2)
